@@ -355,7 +355,11 @@ func (g *pgen) caseNode(depth int) J {
 	for i := 0; i < 1+g.r.Intn(2); i++ {
 		vals := []any{}
 		for j := 0; j < 1+g.r.Intn(2); j++ {
-			vals = append(vals, eLit(g.scalar()))
+			if g.r.Intn(3) == 0 {
+				vals = append(vals, g.operand()) // a when-value may be any expression: evaluated each time the case is
+			} else {
+				vals = append(vals, eLit(g.scalar()))
+			}
 		}
 		whens = append(whens, J{"vals": vals, "body": g.body(depth, 2)})
 	}
